@@ -13,5 +13,4 @@ func cdxTreeAssembly(c *Ctx, prop string) {}
 
 func diffHelpers(c *Ctx) {}
 
-func wellFounded(c *Ctx, entries []string)         {}
 func geometricAccumulation(c *Ctx, ds []*declInfo) {}
